@@ -1,4 +1,4 @@
-"""paths2coq - Python `ast` -> Gallina for the small pure path functions the dataset models (Dataset/FsPaths.v, Ops.v, Edit.v)
+"""partnames2coq - Python `ast` -> Gallina for the small pure path functions the dataset models (Dataset/FsPaths.v, Ops.v, Edit.v)
 mirror by hand:
 
     writer.find_max_part            pids = part_ids(row_groups); if pids: return max(pids) + 1 else: return 0
@@ -7,8 +7,8 @@ mirror by hand:
     util.path_string                if isinstance(o, pd.Timestamp): return o.isoformat();  return str(o)
     api.PART_ID                     the regular expression, as a token list (inventory compared with the pinned one)
 
-Output: Gen/GenPaths.v (logical root PqGen) over the vocabulary of Dataset/PathPrelude.v; the theorems over the generated text are in
-coq/genproofs/GenPathsProofs.v and are re-proved on every run.  Anything outside the fragment -> TranslatorError -> the check records
+Output: Gen/GenPartNames.v (logical root PqGen) over the vocabulary of Dataset/PathPrelude.v; the theorems over the generated text are in
+coq/genproofs/GenPartNamesProofs.v and are re-proved on every run.  Anything outside the fragment -> TranslatorError -> the check records
 `translator_fallback` and relies on the hand model + the function-against-function correspondence (FsPaths.part_id / find_max_part
 against the real functions), as before.
 
@@ -249,7 +249,7 @@ def tr_part_re(tree):
     return "(* api.PART_ID = re.compile(%s) *)\nDefinition gen_part_re : list retok :=\n  [%s].\n" % (shown, "; ".join(toks))
 
 
-HEADER = """(* GENERATED by translators/paths2coq.py from fastparquet/writer.py, api.py, util.py - do not edit. *)
+HEADER = """(* GENERATED by translators/partnames2coq.py from fastparquet/writer.py, api.py, util.py - do not edit. *)
 From Coq Require Import NArith List Bool.
 From Pq Require Import Base.Bytes Dataset.FS Dataset.FsPaths Dataset.PathPrelude.
 Import ListNotations.
@@ -267,7 +267,7 @@ def run(repo, gen_dir):
     except (TranslatorError, SyntaxError, OSError) as e:
         return {"status": "translator_fallback", "reason": str(e)[:400]}
     os.makedirs(gen_dir, exist_ok=True)
-    path = os.path.join(gen_dir, "GenPaths.v")
+    path = os.path.join(gen_dir, "GenPartNames.v")
     with open(path, "w") as f:
         f.write(text)
     return {"status": "translated", "file": path, "text": text}
